@@ -11,14 +11,91 @@ from .. import frontend, capcheck
 from . import capcommon
 
 
+BOS_PAIR = {"destbos": ("dest", "b1"), "srcbos": ("src", "b2"), "strbos": ("str",), "basebos": ("base",)}
+
+
+def split_args(text):
+    out, depth, cur = [], 0, ""
+    for ch in text:
+        if ch == "," and depth == 0:
+            out.append(cur.strip()); cur = ""
+            continue
+        depth += ch in "([{"
+        depth -= ch in ")]}"
+        cur += ch
+    if cur.strip():
+        out.append(cur.strip())
+    return out
+
+
+def wrapper_rule(ck, prog, report=None, macros_text=None):
+    """The truthfulness premise ends at the public wrapper macros: `name_s(dest, dmax, ...)` expands to `_name_s_chk(dest, dmax, ..., BOS(dest)[, BOS(src)])`.
+    Decided from the preprocessor's macro table (clang -E -dM over the public headers) and the parameter names of the callee in the library's IR:
+    every object-size parameter receives BOS(<the macro parameter that is passed as the operand it describes>), and every other macro parameter is
+    forwarded to the callee parameter of the same name."""
+    import re, subprocess, tempfile
+    report = report or ck.report
+    if macros_text is None:
+        inc = os.path.join(frontend.REPO, "include")
+        with tempfile.NamedTemporaryFile("w", suffix=".c", delete=False) as fh:
+            fh.write('#include "safe_lib.h"\n#include "safe_str_lib.h"\n#include "safe_mem_lib.h"\n')
+            tmp = fh.name
+        try:
+            p = subprocess.run(["clang-14", "-E", "-dM", "-I" + inc, "-I" + frontend.REPO, tmp], stdout=subprocess.PIPE, stderr=subprocess.PIPE)
+        finally:
+            os.unlink(tmp)
+        if p.returncode != 0:
+            ck.fail_broken("wrapper rule: the public headers do not preprocess: " + p.stderr.decode()[-300:]); return {}
+        macros_text = p.stdout.decode(errors="replace")
+    macros = {}
+    for line in macros_text.splitlines():
+        m = re.match(r"#define (\w+)\(([^)]*)\) (.*)$", line)
+        if m:
+            macros[m.group(1)] = ([a.strip() for a in m.group(2).split(",") if a.strip()], m.group(3).strip())
+    bos = macros.get("BOS")
+    if not bos or not re.fullmatch(r"__builtin_object_size\(\(?\s*%s\s*\)?\s*,\s*[01]\)" % re.escape(bos[0][0]), bos[1]):
+        report("C01:wrapper-bos-definition", "W-wrapper-passes-its-own-sizes", "include/safe_compile.h:?", "BOS(x) is not __builtin_object_size(x, 0|1) of its own argument: %s" % (bos,))
+    n = nb = 0
+    for name, (params, body) in sorted(macros.items()):
+        m = re.fullmatch(r"(_\w+_chk)\((.*)\)", body)
+        if not m or m.group(1) not in prog.funcs:
+            continue
+        callee = prog.funcs[m.group(1)]
+        cps = [p["name"] for p in callee.j["params"]]
+        args = split_args(m.group(2))
+        vararg = bool(args) and args[-1] == "__VA_ARGS__"
+        if vararg:
+            args = args[:-1]
+        if (not vararg and len(args) != len(cps)) or len(args) > len(cps):
+            report("C01:wrapper-arity:%s" % name, "W-wrapper-passes-its-own-sizes", "include:%s" % name, "%s passes %d arguments to %s, which takes %d" % (name, len(args), callee.name, len(cps)))
+            continue
+        n += 1
+        for i, (a, pn) in enumerate(zip(args, cps)):
+            if pn.endswith("bos"):
+                nb += 1
+                mb = re.fullmatch(r"BOS\((\w+)\)", a)
+                ops = [x for x in BOS_PAIR.get(pn, ()) if x in cps]
+                if not mb or not ops or args[cps.index(ops[0])] != mb.group(1):
+                    report("C01:wrapper-size-mismatch:%s:%s" % (name, pn), "W-wrapper-passes-its-own-sizes", "include:%s" % name,
+                           "%s passes %s as %s of %s, but the operand that parameter describes (%s) receives %s: the library is told the size of a different object"
+                           % (name, a, pn, callee.name, ops[0] if ops else "?", args[cps.index(ops[0])] if ops else "?"))
+            elif re.fullmatch(r"[A-Za-z_]\w*", a) and a in params and a != pn:
+                report("C01:wrapper-argument-order:%s:%s" % (name, pn), "W-wrapper-passes-its-own-sizes", "include:%s" % name,
+                       "%s forwards its parameter %s as %s of %s (parameters of the same name exist on both sides: arguments swapped?)" % (name, a, pn, callee.name))
+    return dict(wrappers=n, object_size_arguments=nb)
+
+
 def run(ck):
     prog, info, st = capcommon.run(ck, "C01", "W", 300, 60)
+    wr = wrapper_rule(ck, prog)
+    if wr.get("wrappers", 0) < 100:
+        ck.fail_broken("wrapper rule: only %d public wrapper macros matched a library function (< 100)" % wr.get("wrappers", 0))
     fx = selftest(ck)
     cov = dict(explanation="%d write obligations over all function definitions of the 140 TUs: %d discharged (offset and upper bound entailed from loop invariants, guards and the caller's "
                "truthfulness premise), %d outside the reach of the domain in %d functions (listed with reasons, not claimed), the rest matched against known findings or reported."
                % (st["total"], st["discharged"], st["outside_reach"], len(st["outside_reach_functions"])),
                obligations=st["total"], discharged=st["discharged"], outside_reach=st["outside_reach"], outside_reach_functions=st["outside_reach_functions"],
-               fully_discharged_functions=st["fully_discharged_functions"], fixtures=fx, frontend=info, no_slack_configuration=st.get("noslack", "thorough tier only"),
+               fully_discharged_functions=st["fully_discharged_functions"], wrapper_macros=wr, fixtures=fx, frontend=info, no_slack_configuration=st.get("noslack", "thorough tier only"),
                summary="%d write obligations, %d discharged, %d outside reach" % (st["total"], st["discharged"], st["outside_reach"]))
     return ck.finish(cov, ["truthfulness premise: each caller buffer has at least the declared number of elements", "libc effect table (sa/effects.py) for delegated writes",
                            "unsigned wrap-around of size arithmetic is ignored (sizes are bounded by RSIZE_MAX after the entry checks)", "functions listed in tables/cap_reach.json are not analysed"])
@@ -36,4 +113,14 @@ def selftest(ck):
         out[n] = dict(obligations=sum(1 for x in res if x["kind"] == "W"), undischarged=bad)
         if (bad > 0) != bool(w):
             ck.fail_broken("fixture c01.c:%s: %d undischarged write obligations, expected %s" % (n, bad, "some" if w else "none"))
+    got = []
+    class Sink:
+        def fail_broken(s, m): got.append("BROKEN " + m)
+    fxm = ("#define BOS(dest) __builtin_object_size((dest), 0)\n"
+           "#define fx1_copy_ok(dest,dmax,src,slen) _fx1_copy_ok_chk(dest, dmax, src, slen, BOS(dest), BOS(src))\n"
+           "#define fx1_copy_swapped(dest,dmax,src,slen) _fx1_copy_swapped_chk(dest, dmax, src, slen, BOS(src), BOS(dest))\n")
+    wrapper_rule(Sink(), prog, report=lambda key, *a, **k: got.append(key), macros_text=fxm)
+    out["wrapper_rule"] = got
+    if sorted(got) != ["C01:wrapper-size-mismatch:fx1_copy_swapped:destbos", "C01:wrapper-size-mismatch:fx1_copy_swapped:srcbos"]:
+        ck.fail_broken("fixture c01.c: wrapper rule reported %s" % got)
     return out
